@@ -99,7 +99,7 @@ func (e *CachedEnforcer) LoadPolicy() error {
 
 func (e *CachedEnforcer) RemovePolicy(params ...interface{}) (bool, error) {
 	if atomic.LoadInt32(&e.enableCache) != 0 {
-		key, ok := e.getKey(params...)
+		key, ok := e.getKey(ruleAsParams(params)...)
 		if ok {
 			if err := e.cache.Delete(key); err != nil && err != cache.ErrNoSuchKey {
 				return false, err
@@ -112,8 +112,8 @@ func (e *CachedEnforcer) RemovePolicy(params ...interface{}) (bool, error) {
 func (e *CachedEnforcer) RemovePolicies(rules [][]string) (bool, error) {
 	if len(rules) != 0 {
 		if atomic.LoadInt32(&e.enableCache) != 0 {
-			irule := make([]interface{}, len(rules[0]))
 			for _, rule := range rules {
+				irule := make([]interface{}, len(rule))
 				for i, param := range rule {
 					irule[i] = param
 				}
@@ -156,6 +156,21 @@ func (e *CachedEnforcer) InvalidateCache() error {
 	e.locker.Lock()
 	defer e.locker.Unlock()
 	return e.cache.Clear()
+}
+
+// ruleAsParams turns the single []string form of a rule, which the policy API
+// accepts as well, into the list of its fields.
+func ruleAsParams(params []interface{}) []interface{} {
+	if len(params) == 1 {
+		if rule, ok := params[0].([]string); ok {
+			fields := make([]interface{}, len(rule))
+			for i, field := range rule {
+				fields[i] = field
+			}
+			return fields
+		}
+	}
+	return params
 }
 
 func GetCacheKey(params ...interface{}) (string, bool) {
